@@ -1340,6 +1340,9 @@ fn fixed_sessions(rng: &mut Rng) -> Vec<Session> {
         sess("hangup-pending-output", vec![PeerPause, Write(100_000, 9), Flush, ms(1), HangUp, ms(10)], rng.next()),
         // drop with a peer that does not read (the closing sequence cannot be delivered; settings still restored)
         sess("stalled-drop", vec![PeerPause, Write(300_000, 10), Flush, ms(5)], rng.next()),
+        // escape-size mode: the size query that answers SIGWINCH is queued behind pending frames, which are dropped
+        Session { size_esc: true, ..sess("sizequery-frames-drop", vec![Winch, PeerPause, Write(214_983, 10), Flush, Write(1395, 51), ms(3), Exec(267),
+            FramesDrop, ms(7), PeerResume], rng.next()) },
         sess("drop-immediately", vec![], rng.next()),
         // a termination signal arrives but is not observed by a poll before the terminal is released, output pending
         Session { drop_at: Some(5), ..sess("pendingterm-drop-with-output", vec![PeerPause, Write(200_000, 11), Flush, ms(2), Term(libc::SIGTERM)], rng.next()) },
